@@ -14,7 +14,7 @@ ID = "C05"
 LEVEL = "model_checking"
 RULE = ("slots = every string leaf and every name-bearing map key of the base documents, found by walking the JSON; payloads = 19 "
         "hostile classes wrapped in canary letters; quick: every (slot, payload) single with setup metadata; thorough: also all "
-        "metadata flavours x docstrings_on_attributes x literal_enums and all pairs of slots for the opener/closer payloads; oracle: "
+        "metadata flavours x docstrings_on_attributes x literal_enums and all pairs of slots for the opener/closer payloads; plus colliding-sibling names (the generator's conflict-fallback spelling), literal_enums for enum/const/default slots, request media types carrying parameters (2 stems x every payload), date / date-time defaults with 17 separator characters; oracle: "
         "differential against the benign twin (string-erased ASTs equal), marker-name absence, TOML validity, executed "
         "character-for-character recovery; non-trivial = both documents were generated and compared")
 FLOOR = 0.5
